@@ -381,6 +381,7 @@ def run_history(rec, rng):
     P = optyx.Problem()
     cur_obj, cur_cons = None, []
     steps = []
+    edited = {}
     for step in range(rng.randint(3, 8)):
         r = rng.random()
         try:
@@ -420,6 +421,22 @@ def run_history(rec, rng):
                 P.subject_to(b.rel(rel))
                 cur_cons.append(rel)
                 steps.append("subject_to:" + A.render(rel)[:60])
+            elif r < 0.85 and steps:
+                # a bound re-declared on a variable object of the problem after its bounds were read: the user's declaration is
+                # what the object holds now (the solvers rebuild bounds from it on every solve)
+                vs = list(P.variables)
+                if vs:
+                    v = vs[rng.randrange(len(vs))]
+                    which = rng.choice(["lb", "ub", "both"])
+                    lo = rng.choice([None, -3.0, -1.5, 0.0])
+                    hi = rng.choice([None, 0.5, 2.0, 7.0])
+                    if which in ("lb", "both"):
+                        v.lb = lo
+                    if which in ("ub", "both"):
+                        v.ub = hi
+                    edited[v.name] = (v.lb, v.ub)
+                    steps.append(f"bound-edit:{v.name}.{which}")
+                    rec.cmp(1, "history:bound-edit-after-read")
             else:
                 steps.append("read")
             if cur_obj is None and cur_cons:
@@ -444,7 +461,8 @@ def run_history(rec, rng):
             rec.violation("variables-stale-after-edit", {"steps": steps, "got": got, "want": want, "decls": g.decls, "show": {"decls": A.render_decls(g.decls), "steps": steps}})
             return
         info_ = R.Decls(g.decls).var_info()
-        wantb = [(info_[nm][0], info_[nm][1]) if nm in info_ else (0.0, 0.0) for nm in got]
+        held = {v.name: (v.lb, v.ub) for v in P.variables}  # what the listed objects declare now (edited names only)
+        wantb = [held[nm] if nm in edited else (info_[nm][0], info_[nm][1]) if nm in info_ else (0.0, 0.0) for nm in got]
         if [tuple(None if v is None else float(v) for v in t) for t in gb] != [tuple(None if v is None else float(v) for v in t) for t in wantb]:
             rec.violation("bounds-stale-after-edit", {"steps": steps, "got": [list(t) for t in gb], "want": wantb, "show": {"steps": steps}})
             return
